@@ -498,7 +498,7 @@ impl Property for C17 {
         vec![
             Segment::enumerated("all-fault-plans-small-n", enum_count(), &[2]),
             Segment::random("random-faults-and-dups", tier.pick(6_000, 80_000), &[0], 24, 120),
-            Segment::random("dups-in-large-sets", tier.pick(24, 400), &[1], 24, 120),
+            Segment::random("dups-in-large-sets", tier.pick(64, 600), &[1], 24, 120),
             Segment::random("crate-lenders-over-faulty-sources", tier.pick(3_000, 40_000), &[3], 16, 40),
         ]
     }
@@ -510,7 +510,7 @@ impl Property for C17 {
         true
     }
     fn rule(&self) -> &'static str {
-        "fault sequences owned by the harness: keys and values come from lenders implementing RewindableIoLender with a fault plan (fail at item j of pass p, j = n meaning at the end of the stream; fail the rewind after pass p; none). Enumerated completely for 6 table rows x n in {0,1,2,3,5,8,13,21} x stream x p in 0..=4 x j in 0..=n and rewind faults after passes 0..=3, each with and without a duplicate key (duplicates with check_dups force exactly three retry passes, so faults in passes 1..=3 are reached deterministically); plus random (row, n<=300, configuration, function/filter, fault plans, duplicate plans with multiplicity 2/3/10 at first/last/interior positions, adjacent or spread), plus duplicates (multiplicity up to 3000) in sets of 1e5..2e5 keys crossing shard boundaries, plus the crate's own LineLender/ZstdLineLender/GzipLineLender over a harness Read+Seek source whose k-th seek or a read at an exact byte offset (arbitrary or the start of a line) fails with one of seven io::ErrorKinds (retries forced by a duplicate or made likely by 101..112 keys), and gzip/zstd key streams that end early (cut at any byte, or flushed line by line and never finished): whenever the harness' own decoder reports an error the build must fail. Oracle: a fault that was reached => Err whose chain contains the injected error; duplicates with check_dups => Err after exactly 3 rewinds; otherwise Ok with len()==n and every pair verified; Ok with any wrong pair is a violation in all cases; more rewinds than the deterministic attempt bound => nonconv. Non-trivial: the fault was reached in a retry pass, or a duplicate not adjacent to its twin; distinct = distinct hash of the decoded spec."
+        "fault sequences owned by the harness: keys and values come from lenders implementing RewindableIoLender with a fault plan (fail at item j of pass p, j = n meaning at the end of the stream; fail the rewind after pass p; none). Enumerated completely for 6 table rows x n in {0,1,2,3,5,8,13,21} x stream x p in 0..=4 x j in 0..=n and rewind faults after passes 0..=3, each with and without a duplicate key (duplicates with check_dups force exactly three retry passes, so faults in passes 1..=3 are reached deterministically); plus random (row, n<=300, configuration, function/filter, fault plans, duplicate plans with multiplicity 2/3/10 at first/last/interior positions, adjacent or spread), plus duplicates (multiplicity up to 3000) in sets of 1e5..4e5 keys crossing shard boundaries, mostly on the sharding logics and in half of the cases with 1-2 solving threads (fewer threads than shards), plus the crate's own LineLender/ZstdLineLender/GzipLineLender over a harness Read+Seek source whose k-th seek or a read at an exact byte offset (arbitrary or the start of a line) fails with one of seven io::ErrorKinds (retries forced by a duplicate or made likely by 101..112 keys), and gzip/zstd key streams that end early (cut at any byte, or flushed line by line and never finished): whenever the harness' own decoder reports an error the build must fail. Oracle: a fault that was reached => Err whose chain contains the injected error; duplicates with check_dups => Err after exactly 3 rewinds; otherwise Ok with len()==n and every pair verified; Ok with any wrong pair is a violation in all cases; more rewinds than the deterministic attempt bound => nonconv. Non-trivial: the fault was reached in a retry pass, or a duplicate not adjacent to its twin; distinct = distinct hash of the decoded spec."
     }
     fn run(&self, data: &[u8], cx: &mut Ctx) -> R {
         let (mode, rest) = data.split_first().unwrap_or((&0, &[]));
@@ -527,10 +527,17 @@ impl Property for C17 {
             }
             1 => {
                 let mut u = Unstructured::new(rest);
-                let n = [100_000usize, 150_000, 199_000, 120_001][u.int_in_range(0usize..=3).unwrap_or(0)];
+                let n = [100_000usize, 150_000, 199_000, 120_001, 400_001, 250_000][u.int_in_range(0usize..=5).unwrap_or(0)];
                 let mut cfg = Cfg::decode(&mut u);
                 cfg.check_dups = true;
-                Spec { row: u.int_in_range(0u8..=N_ROWS - 1).unwrap_or(0), n, filter: u.arbitrary().unwrap_or(false), key_style: 2, val_kind: 3, cfg, key_fault: Fault::None, val_fault: Fault::None, dup: Some(([2usize, 3, 10, 3000][u.int_in_range(0usize..=3).unwrap_or(0)], u.int_in_range(0u8..=2).unwrap_or(2), u.arbitrary().unwrap_or(false))) }
+                // fewer solving threads than shards in half of the cases: the shards are then examined one after
+                // the other, and an attempt can end (unsolvable shard) before the duplicate's shard is looked at
+                if cfg.seed % 2 == 0 {
+                    cfg.threads = [1usize, 1, 2][(cfg.seed / 2 % 3) as usize];
+                }
+                // mostly the sharding logics
+                let row = if u.int_in_range(0u8..=3).unwrap_or(0) != 0 { [0u8, 1, 4, 7, 9, 13, 16, 18, 19][u.int_in_range(0usize..=8).unwrap_or(0)] } else { u.int_in_range(0u8..=N_ROWS - 1).unwrap_or(0) };
+                Spec { row, n, filter: u.arbitrary().unwrap_or(false), key_style: 2, val_kind: 3, cfg, key_fault: Fault::None, val_fault: Fault::None, dup: Some(([2usize, 3, 10, 3000][u.int_in_range(0usize..=3).unwrap_or(0)], u.int_in_range(0u8..=2).unwrap_or(2), u.arbitrary().unwrap_or(false))) }
             }
             _ => {
                 let mut u = Unstructured::new(rest);
